@@ -67,6 +67,10 @@ FAMILIES = [
     ("def {H}gen({a}, {b}):\n    return len([{j}.i_pt for {j} in {a} if {j}.i_pt > {b} if {j}.i_eta < {b}])\n", "lambda {j}: {H}gen({j}.so_jets, {j}.i_eta)"),
     # the helper's own free names: module constants, further helpers, values of the scope it was made in
     ("{H}K = 3\n\n\ndef {H}sc({a}):\n    return {a} * {H}K\n", "lambda {e}: {H}sc({e}.i_pt)"),
+    # ... spelled like a parameter of the lambda at the call site (or of a lambda around it)
+    ("{b} = 7\n\n\ndef {H}sc({a}):\n    return {a} * {b} + 1000\n", "lambda {e}: {H}sc({e}.i_pt)"),
+    ("{b} = 7\n\n\ndef {H}sc({a}):\n    return {a}.i_pt * {b}\n", "lambda {e}: {e}.so_jets.Select(lambda {j}: {H}sc({j})).Count() + {H}sc({e})"),
+    ("{b} = 5\n\n\ndef {H}in({a}):\n    return {a} + {b}\n\n\ndef {H}out({j}):\n    return {H}in({j}.i_pt) * 2\n", "lambda {e}: {H}out({e})"),
     ("{H}K = 3\n\n\ndef {H}sc({a}, {b}):\n    return {a}.so_jets.Where(lambda {j}: {j}.i_pt > {H}K + {b}).Count()\n", "lambda {e}: {H}sc({e}, {e}.i_eta)"),
     ("{H}K = 4\n\n\ndef {H}in({a}):\n    return {a} + {H}K\n\n\ndef {H}out({b}):\n    return {H}in({b}.i_pt) * {H}K\n", "lambda {e}: {H}out({e})"),
     ("def {H}mk(k_):\n    def {H}inner({a}):\n        return {a}.i_pt - k_\n    return {H}inner\n\n\n{H}cl = {H}mk(6)\n", "lambda {e}: {H}cl({e}) + {H}cl({e}.o_p)",
